@@ -96,6 +96,10 @@ Result(table, inputs, sc) ==
       hp   == table.hp
   IN
   IF anyU THEN Unspec
+  \* output values double as the allowed values of the output: what becomes of a matching rule's output that is not
+  \* among them is not settled by the property (this implementation nulls it)
+  ELSE IF \E i \in 1..Len(hits), j \in 1..Len(table.outs) :
+            table.outs[j].prio # <<>> /\ PrioPos(table, j, Eval(table.rules[hits[i]].outs[j], sc)) = 0 THEN Unspec
   ELSE IF hits = <<>> THEN (IF hp \in {"C+", "C<", "C>", "C#"} THEN Unspec ELSE Default(table))
   ELSE IF hp = "U" THEN (IF Len(hits) = 1 THEN outs[1] ELSE Null)
   ELSE IF hp = "A" THEN
